@@ -201,8 +201,8 @@ func c25Walk(fc *flags.Command, t reflect.Type, path []string) *c25Cmd {
 }
 
 type c25Surface struct {
-	Top      []*c25Cmd          // registered top-level commands, sorted by name
-	Leaves   []*c25Cmd          // every command whose Execute can be reached (subcommands flattened)
+	Top      []*c25Cmd               // registered top-level commands, sorted by name
+	Leaves   []*c25Cmd               // every command whose Execute can be reached (subcommands flattened)
 	TypeName map[reflect.Type]string // concrete Commander type -> registered top-level name
 	Names    []string
 }
